@@ -703,3 +703,13 @@ SUBCHECKS = [
              rule="every graph <=4 vertices x k,s in 0..4 (including k!=s) x symbreak; oracle: satisfiable iff a k-clique or an s-independent set exists (brute force); " + NT,
              required_labels=['sat', 'unsat', 'k!=s', 'symbreak', 'nosymbreak']),
 ]
+
+
+# ---------------------------------------------------------------------------
+# the same cases after other work in the same process
+
+from vlib import after as _after   # noqa: E402
+
+SUBCHECKS.append(_after.make(SUBCHECKS, inner=['tseitin', 'kcolor', 'evencolor', 'domset', 'tiling', 'iso', 'subgraph', 'clique', 'ramlb'],
+                             as_prefix=['tseitin', 'kcolor', 'clique', 'iso'],
+                             required_labels=['after:cli', 'after:complete', 'after:case', 'then:tseitin', 'then:clique', 'then:kcolor']))
